@@ -208,6 +208,22 @@ def EE():
     return None if dict(A_.a) == {1: 200} else "input lost: %r" % dict(A_.a)
 
 
+def FF():
+    """add_bases refused for a relative reference out of scope leaves derived members behind"""
+    m = _reset()
+    A_, Z_, X_ = m.new_space("A"), m.new_space("Z"), m.new_space("X")
+    A_.new_cells("c", formula="lambda x: x")
+    A_.set_ref("r", Z_, "relative")
+    before = _snap(m)
+    try:
+        X_.add_bases(A_)
+    except Exception:     # noqa
+        after = _snap(m)
+        if after != before:
+            return "rejected add_bases left X with cells %s refs %s" % (list(X_.cells), list(X_._own_refs))
+    return None
+
+
 # ------------------------------------------------------------------ C03
 def B():
     """redefining a base cells overwrites copies deriving from an override in between"""
@@ -587,7 +603,7 @@ def R():
     return None
 
 
-ALL = [A, F, G, U, I, J, K, L, EE, T, Z, B, D, E, a, b, c, H, W, X, V, Y, AA, BB, CC, DD, M, N, O, P, Q, R]
+ALL = [A, F, G, U, I, J, K, L, EE, FF, T, Z, B, D, E, a, b, c, H, W, X, V, Y, AA, BB, CC, DD, M, N, O, P, Q, R]
 
 
 if __name__ == "__main__":
